@@ -1,15 +1,84 @@
+import os, sys
+sys.path.insert(0, os.path.dirname(os.path.dirname(os.path.abspath(__file__))))
+import checklib
+
+
+def regen(ctx):
+    # the synchronisation skeletons the protocol models of C15 were written against (Hive/Gen/C15_Skel.lean)
+    return checklib.regen_skeletons(ctx, [
+        "runtime/valuenotifier/listener.go:Listener.Wait",
+        "runtime/valuenotifier/listener.go:Listener.Deregister",
+        "runtime/valuenotifier/listener.go:Notifier.removeListener",
+        "runtime/valuenotifier/listener.go:Notifier.Notify",
+        "runtime/valuenotifier/listener.go:Notifier.Listener",
+        "runtime/promise/event.go:Event1.OnTrigger",
+        "runtime/promise/event.go:Event.Trigger",
+        "runtime/event/options.go:triggerSettings.currentTriggerExceedsMaxTriggerCount",
+        "runtime/event/event.go:event.linkTo",
+        "runtime/event/event.go:event.Hook",
+        "runtime/event/hook.go:Hook.Unhook",
+        "runtime/event/events.go:Event1.Trigger",
+        "ds/orderedmap/orderedmap.go:OrderedMap.ForEach",
+        "ds/orderedmap/orderedmap.go:OrderedMap.Delete",
+        "ds/orderedmap/orderedmap.go:OrderedMap.Set",
+    ], extra_methods=["Delete", "Set", "Get", "Has", "ForEach", "Hook", "Unhook", "Submit", "Next"])
+
+
 SPEC = {
     "lean_props": "Hive.Props.C15",
     "lean_namespace": "Hive.C15",
+    "regen": regen,
     "driver": "drv_c15",
     "harness": "c15",
-    "theorems": ["C15_notifier", "C15_notifier_wait_race", "C15_promise_once", "C15_max_trigger_count",
-                 "C15_weak_iteration"],
+    "race": True,
+    "theorems": [
+        "C15_trigger_exactly_once", "C15_weak_iteration", "C15_max_trigger_count", "C15_max_trigger_count_never_more",
+        "C15_link", "C15_promise_once", "C15_notifier", "C15_notifier_wait_race",
+        "C15_notifier_old_witness", "C15_notifier_wait_race_old_witness",
+        "C15_skeleton_Listener_Wait", "C15_skeleton_Listener_Deregister", "C15_skeleton_Notifier_removeListener",
+        "C15_skeleton_Notifier_Notify", "C15_skeleton_Notifier_Listener", "C15_skeleton_Event1_OnTrigger",
+        "C15_skeleton_Event_Trigger", "C15_skeleton_triggerSettings_currentTriggerExceedsMaxTriggerCount",
+        "C15_skeleton_event_linkTo", "C15_skeleton_event_Hook", "C15_skeleton_Hook_Unhook", "C15_skeleton_Event1_Trigger",
+        "C15_skeleton_OrderedMap_ForEach", "C15_skeleton_OrderedMap_Delete", "C15_skeleton_OrderedMap_Set",
+    ],
     "trusted_base": [
-        "hand-written models Hive/Model/Events*.lean of runtime/event, runtime/promise, runtime/valuenotifier and of orderedmap.ForEach, "
-        "tied by differential execution and by trace predicates evaluated on recorded concurrent runs (harness/c15)",
-        "Go toolchain and runtime (sync, sync/atomic, select, context), compiled Lean driver"],
-    "modelled": [],
-    "manifest": {"text": "", "note": "", "technique": ""},
-    "assumptions": [],
+        "hand-written models Hive/Model/Events*.lean of runtime/event, runtime/promise, runtime/valuenotifier and of "
+        "orderedmap.ForEach/Set/Delete, tied on every run by (a) line-by-line differential execution of sequential and "
+        "callback-forced histories, (b) trace predicates evaluated by the Lean driver on recorded concurrent runs and forced "
+        "schedules, (c) regenerated synchronisation skeletons (Hive/Gen/C15_Skel.lean) stated as theorems",
+        "Go toolchain and runtime (sync, sync/atomic, select, context, channels), compiled Lean driver",
+        "verif hook valuenotifier.VerifBeforeSelect (build tag verif) used to park a waiter before its select"],
+    "modelled": [
+        "event.Event1 Hook/Unhook/Trigger/LinkTo/WithMaxTriggerCount/WithWorkerPool (hook level) as a sequential machine over hook records",
+        "orderedmap.ForEach as used by Trigger: linked list with frozen next pointers of removed elements (weak iteration), any interleaving",
+        "trigger counters: one atomic Add per Trigger and per visited hook, any number of concurrent Trigger callers (one event, one hook)",
+        "promise.Event1 Trigger/OnTrigger/unsubscribe with every critical section and every callback invocation as one step",
+        "valuenotifier Notifier/Listener: sequential histories with repeated values; Wait's flag check, select and re-check as separate steps",
+        "NOT modelled: WithPreTriggerFunc, event-level worker pools, the generic arities other than Event1 (generated from one template), "
+        "link cycles (the generator keeps links acyclic, a cycle recurses forever in the code), uint64 wrap-around of the counters, "
+        "shrinkingmap internals, the worker pool itself (C16) — pooled hooks are observed after the pool drained"],
+    "manifest": {
+        "text": "Lean theorems: C15_trigger_exactly_once (every sequential history of New/Hook/Unhook/Trigger with limits and pooled hooks: "
+                "a Trigger invokes exactly the hooks attached before and not unhooked whose limits are not used up, once each, in attachment "
+                "order, with its argument), C15_weak_iteration (any interleaving of iterating Triggers with Hook/Unhook callers over the "
+                "ordered map with frozen next pointers: hooks attached at the start and never unhooked are invoked exactly once, no hook "
+                "twice, attachment order), C15_max_trigger_count (+_never_more; any number of concurrent Trigger callers: the event lets "
+                "min(n,calls) through, the hook fires min(m,that)), C15_link (all histories incl. LinkTo: exactly one attached link hook, on "
+                "the current target, none on former targets), C15_promise_once (any interleaving of OnTrigger/Trigger/unsubscribe: no callback "
+                "twice, winner's argument, exactly once at quiescence whether registered before, during or after Trigger), C15_notifier "
+                "(sequential histories with repeated values: Wait succeeds only if Notify(value) lies between creation and deregistration) and "
+                "C15_notifier_wait_race (any interleaving of Wait/Deregister/Notify/cancel: success only if Notify closed the channel while "
+                "the deregistered flag was unset); witnesses of the two repaired defects replayed on the code. Tie: differential runs of the "
+                "ev/it/pr/vn machines, forced schedules through the verif hook (vr), stress traces (mt/pt/hw) judged by the Lean trace "
+                "predicates, regenerated synchronisation skeletons, independent Go oracles for every clause.",
+        "note": "Trusted: Lean kernel; the hand-written models (tied as described); Go runtime semantics of atomics, select and channels as "
+                "written into the protocol models; one event/one hook in the counter protocol (hooks are independent records); "
+                "WithPreTriggerFunc and event-level pools not modelled.",
+        "technique": "Lean 4 invariant proofs over all histories / all interleavings (Hive.Conc.Sys) + differential correspondence, "
+                     "forced schedules and trace predicates",
+    },
+    "assumptions": [
+        "links are acyclic (the code recurses forever on a link cycle)",
+        "a callback is registered by one OnTrigger call (pairwise different callbacks) in C15_promise_once",
+        "callbacks do not block; worker pools are running and eventually drain"],
 }
